@@ -500,7 +500,8 @@ pub fn gen_extreme_directed(rng: &mut Rng, kind: Kind) -> (Config, Vec<Op>) {
     }
     let max_rel = max_rel.clamp(1.0, 40.0);
     let step = (max_rel / ratio).ceil() as usize;
-    let sinc_len = *rng.pick(&[8usize, 16, 16, 24, 32]);
+    let custom = kind.is_sinc() && rng.chance(0.5);
+    let sinc_len = if custom { *rng.pick(&[3usize, 5, 7, 9, 15, 33]) } else { *rng.pick(&[8usize, 16, 16, 24, 32]) };
     let flen = if kind.is_sinc() { sinc_len } else { 8 };
     let fixed_in = matches!(kind, Kind::SincIn | Kind::FastIn);
     let chunk = if fixed_in {
@@ -555,7 +556,6 @@ pub fn gen_extreme_directed(rng: &mut Rng, kind: Kind) -> (Config, Vec<Op>) {
             ((per.max(1) / g) * rng.usize_in(1, 40)).clamp(1, 4096)
         }
     };
-    let custom = kind.is_sinc() && rng.chance(0.5);
     let oversampling = *rng.pick(&[1usize, 2, 2, 3, 4, 8]);
     let mut interp = rng.below(4) as u8;
     if oversampling == 1 && interp >= 2 {
@@ -571,7 +571,7 @@ pub fn gen_extreme_directed(rng: &mut Rng, kind: Kind) -> (Config, Vec<Op>) {
         chunk,
         sub_chunks: 1,
         channels: 1,
-        sinc_len: if custom { *rng.pick(&[3usize, 5, 7, 9, 15, 33]) } else { sinc_len },
+        sinc_len,
         oversampling,
         interp,
         window: rng.below(6) as u8,
@@ -589,7 +589,7 @@ pub fn gen_extreme_directed(rng: &mut Rng, kind: Kind) -> (Config, Vec<Op>) {
         if max_rel > 1.0 {
             ops.push(Op::SetRatio { rel: lo, ramp: r > 0 && rng.chance(0.3), relative_api: rng.chance(0.5) });
         }
-        for _ in 0..rng.usize_in(1, 3) {
+        for _ in 0..(if rng.chance(0.5) { 1 } else { rng.usize_in(1, 3) }) {
             if cfg.kind.is_sinc() && fixed_in && r > 0 && rng.chance(0.5) {
                 ops.push(Op::SetChunk { n: rng.usize_in(1, chunk) });
             }
@@ -711,6 +711,8 @@ pub struct OpMix {
     pub p_slack: f64,
     /// channels get different numbers of real frames
     pub p_ragged: f64,
+    /// some channels share one slice object
+    pub p_alias: f64,
     pub p_ramp: f64,
     pub ratio_edges: bool,
 }
@@ -729,6 +731,7 @@ impl OpMix {
             p_alt_path: if rng.chance(0.5) { 0.0 } else { rng.uniform(0.0, 0.5) },
             p_slack: if rng.chance(0.5) { 0.0 } else { rng.uniform(0.0, 0.6) },
             p_ragged: if rng.chance(0.6) { 0.0 } else { rng.uniform(0.0, 0.5) },
+            p_alias: if rng.chance(0.8) { 0.0 } else { rng.uniform(0.1, 0.8) },
             p_ramp: rng.unit(),
             ratio_edges: true,
         }
@@ -758,7 +761,8 @@ pub fn gen_process(rng: &mut Rng, mix: &OpMix, partial: bool) -> Op {
         (0, 0)
     };
     let ragged = if rng.chance(mix.p_ragged) { 1 + rng.below(255) as u8 } else { 0 };
-    Op::Process { path, valid, slack_in, slack_out, slices: rng.chance(0.2), ragged }
+    let alias = rng.chance(mix.p_alias);
+    Op::Process { path, valid, slack_in, slack_out, slices: if alias { rng.chance(0.7) } else { rng.chance(0.2) }, ragged: if alias { 0 } else { ragged }, alias }
 }
 
 pub fn gen_set_mask(rng: &mut Rng, cfg: &Config) -> Op {
@@ -933,10 +937,10 @@ pub fn gen_ops_clip(rng: &mut Rng, cfg: &Config, mix: &OpMix) -> Vec<Op> {
             ops.push(gen_process(rng, mix, false));
         }
         let p = *rng.pick(&[Path::PartialInto, Path::PartialWrapper, Path::VecPartialInto, Path::VecPartialWrapper]);
-        ops.push(Op::Process { path: p, valid: Some(rng.log_usize(1, 5000) as u32), slack_in: 0, slack_out: 0, slices: false, ragged: 0 });
+        ops.push(Op::Process { path: p, valid: Some(rng.log_usize(1, 5000) as u32), slack_in: 0, slack_out: 0, slices: false, ragged: 0, alias: false });
         for _ in 0..rng.usize_in(1, 3) {
             let p = *rng.pick(&[Path::PartialInto, Path::PartialWrapper, Path::VecPartialInto, Path::VecPartialWrapper]);
-            ops.push(Op::Process { path: p, valid: Some(0), slack_in: 0, slack_out: 0, slices: false, ragged: 0 });
+            ops.push(Op::Process { path: p, valid: Some(0), slack_in: 0, slack_out: 0, slices: false, ragged: 0, alias: false });
         }
         ops.push(Op::Reset);
     }
@@ -990,7 +994,7 @@ pub fn gen_ops_ratematch(rng: &mut Rng, cfg: &Config, mix: &OpMix) -> (Vec<Op>, 
         if rng.chance(stall_p) {
             // producer stall: underrun, only part of the chunk arrived -> zero padded call
             let have = rng.log_usize(1, 5000) as u32;
-            ops.push(Op::Process { path: Path::IntoBuffer, valid: Some(have), slack_in: 0, slack_out: 0, slices: false, ragged: 0 });
+            ops.push(Op::Process { path: Path::IntoBuffer, valid: Some(have), slack_in: 0, slack_out: 0, slices: false, ragged: 0, alias: false });
         } else {
             ops.push(gen_process(rng, mix, false));
         }
